@@ -207,14 +207,71 @@ class Taint:
         r.count = False
         return r
 
-    @staticmethod
-    def is_bounded_flag(test):
-        return U(test) in ('bounded', 'self.bounded')
+    def is_bounded_flag(self, test, env=None):
+        t = U(test)
+        if t == 'bounded':
+            return True
+        if t == 'self.bounded':
+            # only a flag that the constructor chain really binds to the adjacency parameter may declassify
+            me = (env or {}).get('self')
+            return me is not None and me.kind == 'obj' and self.genuine_bounded(me.cls)
+        return False
+
+    def genuine_bounded(self, cls):
+        """every constructor from `cls` up to the class that stores self.bounded passes a `bounded` parameter or a
+        boolean constant into the base's `bounded` parameter"""
+        rel, cname = cls
+        for _ in range(6):
+            mod = self.mods[rel]
+            init = mod.funcs.get('%s.__init__' % cname)
+            cdef = mod.classes.get(cname)
+            if init is None:
+                return False
+            for s in ast.walk(init.node):
+                if isinstance(s, ast.Assign) and any(U(t) == 'self.bounded' for t in s.targets):
+                    return U(s.value) == 'bounded' and 'bounded' in init.params
+            # find the base class and the super().__init__ call
+            bases = [U(b) for b in cdef.bases] if cdef is not None else []
+            base = None
+            for r2, m2 in self.mods.items():
+                if bases and bases[0] in m2.classes:
+                    base = (r2, bases[0])
+            if base is None:
+                return False
+            binit = self.mods[base[0]].funcs.get('%s.__init__' % base[1])
+            call = None
+            for c in ast.walk(init.node):
+                if isinstance(c, ast.Call) and isinstance(c.func, ast.Attribute) and c.func.attr == '__init__' and \
+                        (U(c.func.value).startswith('super(') or U(c.func.value) == base[1]):
+                    call = c
+            if binit is None or call is None or 'bounded' not in binit.params:
+                return False
+            bparams = [p for p in binit.params if p != 'self']
+            args = list(call.args)
+            if U(call.func.value) == base[1] and args:
+                args = args[1:]
+            bound = None
+            idx = bparams.index('bounded')
+            if idx < len(args):
+                bound = args[idx]
+            for k in call.keywords:
+                if k.arg == 'bounded':
+                    bound = k.value
+            if bound is None:
+                d = binit.defaults().get('bounded')
+                return isinstance(d, ast.Constant)
+            if isinstance(bound, ast.Constant) and isinstance(bound.value, bool):
+                return True
+            if not (isinstance(bound, ast.Name) and bound.id == 'bounded' and 'bounded' in init.params):
+                return False
+            rel, cname = base
+            # the base stores the flag: checked at the top of the next iteration
+        return False
 
     def ev_IfExp(self, e, env, mod):
         test = self.ev(e.test, env, mod)
         a, b = self.ev(e.body, env, mod), self.ev(e.orelse, env, mod)
-        if self.is_bounded_flag(e.test):
+        if self.is_bounded_flag(e.test, env):
             # bounded adjacency: the record count is public (neighbours have equal size)
             if a.count:
                 a = CLEAN()
@@ -582,7 +639,7 @@ class Taint:
             self.rets[-1] = join(self.rets[-1], v)
         elif isinstance(st, ast.If):
             t = self.ev(st.test, env, mod)
-            if not self.is_bounded_flag(st.test):
+            if not self.is_bounded_flag(st.test, env):
                 self.sink(t, st.test, mod, 'private data decides a branch')
             e1, e2 = copy.copy(env), copy.copy(env)
             self.block(st.body, e1, mod)
